@@ -9,7 +9,7 @@
    IsoCheck.embed_check in coqc on the two real tables; node set and ValueError conditions against
    Compose.v. *)
 From Coq Require Import List.
-From Tawazi Require Import Graph Closure Sched SchedInv Dataflow DataflowFacts Iso IsoFacts Compose ComposeFacts.
+From Tawazi Require Import Graph Closure Sched SchedInv Dataflow DataflowFacts Terms Iso IsoFacts IsoCheck IsoCheckFacts Compose ComposeFacts.
 Import ListNotations.
 
 Section C19.
@@ -53,3 +53,12 @@ Theorem C19_compose_error_iff (preds : nat -> list nat) (nodes required ins outs
   (exists r, In r required /\ needed preds nodes ins outs r).
 Proof. exact (compose_set_error_iff' preds nodes required ins outs). Qed.
 Print Assumptions C19_compose_error_iff.
+
+(* the executable relation evaluated by the correspondence on the composed and the original table
+   implies the embedding *)
+Theorem C19_embed_check_sound specs1 specs2 c1 c2 res1 res2 rho_l bound :
+  embed_check specs1 specs2 c1 c2 res1 res2 rho_l bound = [] ->
+  embeds term TNone t_truthy t_index (spec_tbl specs1) (spec_tbl specs2)
+         (cfg_bind c1 bound) c2 (res_bind specs2 c2 res2 rho_l bound res1) res2 (rho_of rho_l).
+Proof. exact (embed_check_sound specs1 specs2 c1 c2 res1 res2 rho_l bound). Qed.
+Print Assumptions C19_embed_check_sound.
